@@ -47,6 +47,8 @@ try:
         res[c] = dict(exit=r.returncode, violation=bool(viol), how=detail, summary=lines[-1][:160] if lines else r.stdout[-200:])
 finally:
     sh("git -C /repo checkout -- .")
+    # evidence files were rewritten by runs against the changed tree: bring back the committed ones (from the unchanged tree)
+    sh("git -C /verif checkout -- evidence")
     # Gen/ is regenerated from /repo: bring it back to the clean source
     sh("cd /verif && /venv/bin/python -c \"import sys; sys.path.insert(0,'harness'); import common; common.regenerate_gen()\"")
 old = json.load(open(dst / "meta.json")).get("confirmed", {}) if (dst / "meta.json").exists() else {}
